@@ -808,6 +808,7 @@ func runOne(seed uint64, prof string, tape *rt.Tape, jb *job) (res runResult, lr
 	}
 	res.Sample = map[string]interface{}{"seed": seed, "segment_size": lr.segSize, "program": opsShown, "io_boundaries": lr.boundaries, "process_kill_images": lr.images, "power_loss_images": lr.plImages, "reach": lr.reach}
 	_ = os.RemoveAll(lr.base)
+	_ = os.Remove(filepath.Dir(lr.base)) // the per-process directory, once it is empty
 	return
 }
 
